@@ -1110,6 +1110,22 @@ def ma5(ctx):
         evicted = any(t.dominates(x, p) for x in removals_t) or not any(r_ in t.reach_after(p, avoid=set(removals_t)) for r_ in rets_t)
         ctx.check(evicted, 'truncate:every-move-evicts#%d' % kk, where(t, p), 'start_position moves only together with the eviction of the metas in front of it',
                   'truncate_head can move start_position and return without evicting the record metas in front of it: the metas left behind stay counted in memory_used and are indexed from the wrong position')
+    # ... and the index the metas are drained up to is what the position look-up answered -- found (`Ok(i)`) or not
+    # (`Err(i)`: the insertion point, i.e. the first record AFTER a gap in the positions). A default in its place
+    # (`unwrap_or_default()`: 0) evicts nothing when the truncation point falls into a gap, while start_position moves on
+    for cs in t.calls:
+        if not re.search(r'Vec::<mem::queue::RecordMeta>::drain', cs.name) or len(cs.args) < 2:
+            continue
+        rl = op_local(cs.args[1])
+        for o in (t.trace_local(rl) if rl is not None else []):
+            if o[0] == 'rv' and o[2]['k'] == 'agg' and re.search(r'ops::RangeTo$', o[2].get('adt') or '') and o[2]['ops']:
+                alts = t.affine_alts(o[2]['ops'][0])
+                if alts is None:
+                    continue
+                bad_alts = [a for a in alts if not (a[1] == 0 and len(a[0]) == 1 and list(a[0].values()) == [1] and any('position_to_idx' in str(k_[1]) or 'binary_search' in str(k_[1]) for k_ in a[0] if k_[0] == 'call'))]
+                ctx.check(not bad_alts, 'truncate:drain-index-is-the-look-up', where(t, cs.point), 'the metas are drained up to the index the position look-up answered (found or insertion point)',
+                          'the metas can be drained up to %s instead of the index the position look-up answered: with a gap in the positions nothing (or the wrong number of records) is evicted while start_position moves on' %
+                          ' / '.join(' + '.join([str(k_[-1]) for k_ in sorted(a[0], key=str)] + ([str(a[1])] if a[1] or not a[0] else [])) for a in bad_alts))
     ctx.check(paired and must_dr, 'truncate:metas-and-payload', t.span, 'partial truncation drains the metas and the payload bytes together',
               'a partial truncation can drop record metas without dropping their payload bytes (or vice versa): memory_used would not drop by what was evicted')
 
@@ -1145,12 +1161,15 @@ def past4(ctx):
     for (p, pl, rv) in b.stores:
         if mem_loc(pl) != 'MemQueue.start_position' or rv['k'] != 'use':
             continue
-        af = b.affine(rv['op'])
-        if af is None:
+        alts = b.affine_alts(rv['op'])
+        if not alts:
             continue        # not an expression this evaluator reads; the clauses above still apply
         k += 1
-        (terms, c) = af
-        good = c == 1 and len(terms) == 1 and all(kk[0] in ('param', 'proj') and kk[1] == 2 and cf == 1 for (kk, cf) in terms.items())
+        def point_plus_one(af_):
+            return af_[1] == 1 and len(af_[0]) == 1 and all(kk[0] in ('param', 'proj') and kk[1] == 2 and cf == 1 for (kk, cf) in af_[0].items())
+        wrong = [af_ for af_ in alts if not point_plus_one(af_)]
+        (terms, c) = wrong[0] if wrong else alts[0]
+        good = not wrong
         ctx.check(good, 'new-start-is-point-plus-one#%d' % k, where(b, p), 'start_position := truncation point + 1',
                   'truncate_head stores %s into start_position, not the truncation point + 1: truncating at or beyond the last appended position would leave the truncated-to position to be handed out again' %
                   (' + '.join(['%s%s' % ('' if cf == 1 else '%d*' % cf, kk[-1] if kk[0] != 'param' else '_%d' % kk[1]) for (kk, cf) in sorted(terms.items(), key=str)] + ([str(c)] if c or not terms else []))))
